@@ -39,9 +39,13 @@ import (
 //	    (one scenario: retries=2, the timer first retransmits and gives up on the next tick)
 //	T2  a new outbound handshake is started (to a third peer, or to b again) and its first attempt is made
 //
+// One more scenario has no handshake under test: two udp readers of a receive the same recv_error for an established
+// tunnel (teardown = closeTunnel + HandshakeManager.DeleteHostInfo of that hostinfo) while T2 starts a handshake whose
+// only drawable index is the tunnel's.
+//
 // Every file of package nebula that uses sync runs on the scheduler shim, so every lock acquisition is a scheduling
 // point; ALL schedules up to a preemption bound are executed (one worker process per scenario, in parallel with the
-// history half). While the threads run, the index generator of node a is restricted to the indexes a holds at that moment
+// history half; a smaller bound is completed first so that a time cap never leaves the low-preemption schedules out). While the threads run, the index generator of node a is restricted to the indexes a holds at that moment
 // plus a few spare values and starts at the index of the pending handshake: a freed index is re-drawn at once, a held
 // one is skipped (allocateIndex's retry loop), and with no spare value the space can run dry.
 //
@@ -172,11 +176,7 @@ func c29hsSetup(t testing.TB, sc c29hsScenario) *c29hsRun {
 	if len(s1) != 1 {
 		t.Fatalf("c29hs %s: first message: %v", sc.Name, s1)
 	}
-	all := c29hsCapture(net, func() { b.deliver(a.udp, s1[0].Data) })
-	if os.Getenv("C29HS_DEBUG") != "" {
-		fmt.Println("s1", s1, "all", all, "b tunnels", b.tunnels(), "a tunnels", a.tunnels())
-	}
-	reply := c29hsHandshakes(all)
+	reply := c29hsHandshakes(c29hsCapture(net, func() { b.deliver(a.udp, s1[0].Data) }))
 	var rh header.H
 	if len(reply) != 1 || reply[0].To != a.udp || rh.Parse(reply[0].Data) != nil {
 		t.Fatalf("c29hs %s: reply: %v", sc.Name, reply)
@@ -526,8 +526,7 @@ func TestVerifC29HSWorker(t *testing.T) {
 	if name == "" {
 		t.Skip("worker only")
 	}
-	debug.SetGCPercent(-1) // every schedule assembles two fresh nodes (large packet arenas): collect only when the heap reaches the limit
-	debug.SetMemoryLimit(512 << 20)
+	debug.SetGCPercent(400) // every schedule assembles two fresh nodes (large packet arenas that die at once): collect less often
 	bound, first, budget := 2, 0, 30.0
 	fmt.Sscanf(os.Getenv("VERIF_C29HS_BOUND"), "%d", &bound)
 	fmt.Sscanf(os.Getenv("VERIF_C29HS_FIRST_BOUND"), "%d", &first) // >0: explore this smaller bound completely before `bound`
